@@ -360,6 +360,8 @@ structure MState where
   output : TModule
   /-- an `ast.arg` was stored as a default value: `black` will raise at the end -/
   poisoned : Bool := false
+  /-- ghost (no influence on the result): some pair overwrote a default in a function in which it replaced nothing -/
+  phantom : Bool := false
 
 def evalNodeA (p : Pair) (search : Loc) : Except Err TNode :=
   if p.inputParam.toList.contains '.' then .error .notImplemented
@@ -406,7 +408,7 @@ def stepPair (inputEval : Bool) (wrap : Option String) (ms : MState) (p : Pair) 
     | some e => .error e
     | none =>
       if !r.2.replaced then .error .assertion
-      else .ok { ms' with output := r.1, poisoned := ms'.poisoned || r.2.poisoned }
+      else .ok { ms' with output := r.1, poisoned := ms'.poisoned || r.2.poisoned, phantom := ms'.phantom || r.2.phantom }
 
 /-- the `for input_param, output_param in zip(…)` loop: every pair, in order; the first exception ends the call -/
 def loopPairs (inputEval : Bool) (wrap : Option String) : MState → List Pair → Except Err MState
